@@ -162,6 +162,14 @@ extern "C" int clock_gettime(clockid_t id, struct timespec* ts)
   return real_clock_gettime()(id, ts);
 }
 
+// per-thread measurements of the requesting thread (reset at the start of every logical request)
+static thread_local bool t_isRequester = false;
+static thread_local long long t_maxWaitMs = 0;     // longest single timed wait the thread asked for (client-visible ms)
+static thread_local long long t_waitTimeouts = 0;  // timed waits that ended by time-out
+static thread_local long long t_lastDeadline = -1;
+static thread_local long long t_episodeStartReal = 0;
+static std::atomic<long long> n_stalls{0};
+
 // A timed wait against the virtual clock: wait in short real slices; report a time-out only when the VIRTUAL deadline
 // has passed, otherwise return as a spurious wake-up (which every caller must tolerate).
 extern "C" int pthread_cond_clockwait(pthread_cond_t* c, pthread_mutex_t* m, clockid_t id, const struct timespec* abs)
@@ -171,6 +179,23 @@ extern "C" int pthread_cond_clockwait(pthread_cond_t* c, pthread_mutex_t* m, clo
   n_clockwait++;
   long long vdl = abs->tv_sec * 1000000000LL + abs->tv_nsec;
   long long vn = virtNowNs();
+  if (t_isRequester)
+  {
+    if (vdl != t_lastDeadline)
+    {
+      t_lastDeadline = vdl;
+      t_episodeStartReal = realMonoNs();
+      long long ms = vn < vdl ? (vdl - vn + 999999LL) / 1000000LL : 0;
+      if (ms > t_maxWaitMs) t_maxWaitMs = ms;
+    }
+    else if (realMonoNs() - t_episodeStartReal > 1500000000LL && !g_wantTimeout.load())
+    {
+      // Nothing has happened for 1.5 s of REAL time (several nominal time-outs): whatever the script said, the peer is
+      // silent for this caller — let the virtual clock run so that the wait ends by its own time-out.
+      n_stalls++;
+      g_wantTimeout = true;
+    }
+  }
   long long slice = 0;
   if (vn < vdl)
   {
@@ -181,13 +206,14 @@ extern "C" int pthread_cond_clockwait(pthread_cond_t* c, pthread_mutex_t* m, clo
   toTs(realMonoNs() + slice, &rts);
   int rc = real(c, m, CLOCK_MONOTONIC, &rts);
   if (rc == ETIMEDOUT && virtNowNs() < vdl) return 0;
+  if (rc == ETIMEDOUT && t_isRequester) t_waitTimeouts++;
   return rc;
 }
 
 // ---- per-request context of the requesting thread ------------------------------------------------------------------
 struct Fault
 {
-  char cls = 'K';            // L R B M E T C D F P V K
+  char cls = 'K';            // L R B M E T C D F P V K S
   bool idle = false;         // the cached connection (if any) is older than the idle timeout when this attempt starts
   // server side
   char reqAct = 'n';         // n none | a RST at accept | w RST when readable, nothing read | r RST | f FIN | s silence  (after k bytes)
@@ -256,6 +282,7 @@ static std::atomic<bool> g_refuse{false}, g_blackhole{false};
 static std::atomic<long long> g_forwardedConnects{0}; // connects that really went to the scripted server
 static std::mutex g_wireMx;
 static std::map<int, long long> g_wire;               // client local port -> request bytes accepted by the kernel (this request)
+static std::map<int, long long> g_sentByPort;         // client local port -> bytes accepted by the kernel (since process start)
 
 extern "C" int connect(int fd, const struct sockaddr* addr, socklen_t len)
 {
@@ -280,7 +307,18 @@ extern "C" int connect(int fd, const struct sockaddr* addr, socklen_t len)
         g_wantTimeout = true;
         return real(fd, reinterpret_cast<const sockaddr*>(&alt), sizeof(alt));
       }
+      int rc = real(fd, addr, len);
+      int saved = errno;
+      sockaddr_in me{};
+      socklen_t ml = sizeof(me);
+      if (getsockname(fd, reinterpret_cast<sockaddr*>(&me), &ml) == 0)
+      {
+        std::lock_guard<std::mutex> g(g_wireMx);
+        g_sentByPort[ntohs(me.sin_port)] = 0; // a new connection on this (possibly recycled) local port
+      }
       g_forwardedConnects++;
+      errno = saved;
+      return rc;
     }
   }
   return real(fd, addr, len);
@@ -305,6 +343,7 @@ extern "C" ssize_t send(int fd, const void* buf, size_t n, int flags)
         n_send_seen++;
         std::lock_guard<std::mutex> g(g_wireMx);
         g_wire[ntohs(me.sin_port)] += r;
+        g_sentByPort[ntohs(me.sin_port)] += r;
       }
     }
     errno = saved;
@@ -325,8 +364,16 @@ struct SrvConnRec
   long long reqId = -1;      // logical request (harness sequence number) the counters refer to
 };
 
+struct ConnStat
+{
+  int peerPort = 0;
+  std::atomic<long long> read{0};   // request bytes taken from the socket on this connection (since accept)
+  std::atomic<bool> stopped{false}; // the handler will not read any further (it acted, or it is gone)
+};
+
 struct Server
 {
+  std::vector<std::shared_ptr<ConnStat>> conns; // guarded by mx
   int lfd = -1;
   int port = 0;
   int bhfd = -1;
@@ -435,9 +482,10 @@ struct Server
     return true;
   }
 
-  void handle(int fd, int ord)
+  void handle(int fd, int ord, std::shared_ptr<ConnStat> cs)
   {
     struct Dec { std::atomic<int>& c; ~Dec() { c--; } } dec{liveHandlers};
+    struct Stop { ConnStat& c; ~Stop() { c.stopped = true; } } stopOnExit{*cs};
     char buf[4096];
     for (;;)
     {
@@ -464,6 +512,7 @@ struct Server
       } ex(*this);
       if (f.reqAct == 'w' || f.reqAct == 'a') // 'a' on a connection that already exists: the same, at first sight of the request
       {
+        cs->stopped = true;
         note(ord, reqId, 1, 0, "rst-unread"); // at least one byte of the request arrived; none was read
         rst(fd);
         return;
@@ -483,22 +532,29 @@ struct Server
         if (n <= 0) { note(ord, reqId, 0, 0, "client-closed-midrequest"); ::close(fd); return; }
         in.append(buf, static_cast<std::size_t>(n));
         got += n;
+        cs->read += n;
         note(ord, reqId, n, 0, nullptr);
       }
       if (!acted && limited) acted = true; // offset beyond the request: act once the whole request is in
+      if (acted) cs->stopped = true;
       if (!acted) note(ord, reqId, 0, 0, nullptr, true);
+      // Server-side view of "an exchange with this host:port is in progress": from the complete request to just BEFORE the
+      // server's last action (the client can only finish the exchange after that action, so two such intervals of one host
+      // overlap only if two exchanges really overlapped).
       struct HostGuard
       {
         Server& s;
         int h = -1;
-        ~HostGuard()
+        void release()
         {
           if (h >= 0)
           {
             std::lock_guard<std::mutex> g(s.mx);
             s.hostEx[h]--;
+            h = -1;
           }
         }
+        ~HostGuard() { release(); }
       } hostGuard{*this};
       if (!acted && parMode.load())
       {
@@ -539,14 +595,22 @@ struct Server
       if (f.asyncFail && setAllowSwitch) setAllowSwitch(false);
       std::size_t first = j;
       if (f.cut > 0 && static_cast<std::size_t>(f.cut) < j) first = static_cast<std::size_t>(f.cut);
-      bool ok = sendAll(fd, resp.data(), first);
-      if (ok && first < j)
+      bool ok = true;
+      if (first < j)
       {
+        ok = sendAll(fd, resp.data(), first);
         realSleepUs(2500);
-        ok = sendAll(fd, resp.data() + first, j - first);
+        hostGuard.release();
+        if (ok) ok = sendAll(fd, resp.data() + first, j - first);
+      }
+      else
+      {
+        hostGuard.release();
+        ok = sendAll(fd, resp.data(), first);
       }
       note(ord, reqId, 0, static_cast<long long>(j), nullptr);
       if (!ok) { note(ord, reqId, 0, 0, "send-failed"); ::close(fd); return; }
+      if (f.respAct != 'k') cs->stopped = true;
       if (f.respAct == 'f') { note(ord, reqId, 0, 0, "fin-resp"); finAndDrain(fd); return; }
       if (f.respAct == 'r') { note(ord, reqId, 0, 0, "rst-resp"); rst(fd); return; }
       if (f.respAct == 's')
@@ -581,15 +645,24 @@ struct Server
         ord = nextOrd++;
         reqId = curReq;
       }
+      auto cs = std::make_shared<ConnStat>();
+      {
+        sockaddr_in peer{};
+        socklen_t pl = sizeof(peer);
+        if (getpeername(fd, reinterpret_cast<sockaddr*>(&peer), &pl) == 0) cs->peerPort = ntohs(peer.sin_port);
+        std::lock_guard<std::mutex> g(mx);
+        conns.push_back(cs);
+      }
       if (f.reqAct == 'a')
       {
         note(ord, reqId, 0, 0, "rst-accept");
+        cs->stopped = true;
         rst(fd);
         accepted++;
         continue;
       }
       liveHandlers++;
-      std::thread([this, fd, ord] { handle(fd, ord); }).detach();
+      std::thread([this, fd, ord, cs] { handle(fd, ord, cs); }).detach();
       accepted++;
     }
   }
@@ -666,6 +739,8 @@ struct SpyEngine : detail::EngineBase
   std::mutex mx;
   std::vector<SpyCall> calls;
   std::atomic<bool> failSend{false};
+  std::function<void()> onSendHook;          // runs on the calling thread inside send(), before forwarding
+  std::set<SessionId> closeCalled, closeFired; // guarded by mx: close() was called / the engine's onClose has fired
   std::atomic<long long> nOnData{0}, nOnClose{0}, nOnConnect{0};
 
   explicit SpyEngine(std::unique_ptr<detail::EngineBase> r) : real(std::move(r)) {}
@@ -693,14 +768,27 @@ struct SpyEngine : detail::EngineBase
   }
   bool close(SessionId sid) override
   {
-    rec('x', sid);
+    {
+      std::lock_guard<std::mutex> g(mx);
+      calls.push_back(SpyCall{'x', sid, t_tid});
+      closeCalled.insert(sid);
+    }
     return real->close(sid);
+  }
+  bool engineDoneWithClosed()
+  {
+    std::lock_guard<std::mutex> g(mx);
+    for (auto sid : closeCalled)
+      if (!closeFired.count(sid)) return false;
+    return true;
   }
   bool send(SessionId sid, const void* d, std::size_t n) override
   {
     rec('s', sid);
     if (failSend.load()) return false;
-    return real->send(sid, d, n);
+    bool r = real->send(sid, d, n);
+    if (onSendHook) onSendHook();
+    return r;
   }
   void sendAsync(SessionId sid, const void* d, std::size_t n, SendCompleteCallback cb) override
   {
@@ -715,7 +803,15 @@ struct SpyEngine : detail::EngineBase
     w.onConnect = [this, f = c.onConnect](SessionId s, const TransportAddress& a) { nOnConnect++; if (f) f(s, a); };
     w.onData = [this, f = c.onData](SessionId s, iora::core::BufferView v, std::chrono::steady_clock::time_point t)
     { nOnData++; if (f) f(s, v, t); };
-    w.onClose = [this, f = c.onClose](SessionId s, const TransportErrorInfo& e) { nOnClose++; if (f) f(s, e); };
+    w.onClose = [this, f = c.onClose](SessionId s, const TransportErrorInfo& e)
+    {
+      nOnClose++;
+      {
+        std::lock_guard<std::mutex> g(mx);
+        closeFired.insert(s);
+      }
+      if (f) f(s, e);
+    };
     real->setCallbacks(std::move(w));
   }
   TransportStats getStats() const override { return real->getStats(); }
@@ -840,12 +936,37 @@ static void makeClient(bool reuse, std::size_t cap, long long leaseMs)
 
 static TransportConfig& tcfg() { return g_clientPtr->_transport->_impl->config; }
 
+// Between two attempts nothing of the previous one may still be in flight, or the server would bind it to the next fault:
+// (1) the server accepted every connection the client opened, (2) the engine is done with every session the client closed
+// (its onClose fired: nothing more will be written), (3) the server has taken every byte the client wrote, on every connection
+// it is still reading.
+static bool quiescent()
+{
+  if (g_srv.accepted.load() < g_forwardedConnects.load()) return false;
+  if (g_spy && !g_spy->engineDoneWithClosed()) return false;
+  std::vector<std::shared_ptr<ConnStat>> cs;
+  {
+    std::lock_guard<std::mutex> g(g_srv.mx);
+    auto& v = g_srv.conns;
+    v.erase(std::remove_if(v.begin(), v.end(), [](const std::shared_ptr<ConnStat>& c) { return c->stopped.load(); }), v.end());
+    cs = v;
+  }
+  std::lock_guard<std::mutex> g(g_wireMx);
+  for (auto& c : cs)
+  {
+    if (c->stopped.load()) continue;
+    auto it = g_sentByPort.find(c->peerPort);
+    long long sent = it == g_sentByPort.end() ? 0 : it->second;
+    if (c->read.load() < sent) return false;
+  }
+  return true;
+}
 static bool waitAccepted()
 {
-  for (int i = 0; i < 4000; ++i)
+  for (int i = 0; i < 8000; ++i)
   {
-    if (g_srv.accepted.load() >= g_forwardedConnects.load()) return true;
-    realSleepUs(500);
+    if (quiescent()) return true;
+    realSleepUs(250);
   }
   return false;
 }
@@ -872,6 +993,11 @@ static void beginAttempt(ReqCtx& cx, int idx)
   g_refuse = false;
   g_blackhole = false;
   g_spy->failSend = false;
+  g_spy->onSendHook = nullptr;
+  {
+    std::lock_guard<std::mutex> lk(cx.client->_transport->_impl->syncMutex);
+    cx.client->_transport->_impl->shuttingDown = false;
+  }
   tcfg().allowReadModeSwitch = true;
   tcfg().maxSyncReceiveBuffer = g_origSyncBuf;
   if (g_fakeHolder)
@@ -932,6 +1058,16 @@ static void beginAttempt(ReqCtx& cx, int idx)
   case 'M': tcfg().allowReadModeSwitch = false; break;
   case 'E': g_spy->failSend = true; break;
   case 'V': tcfg().maxSyncReceiveBuffer = 256; break;
+  case 'S':
+  {
+    // "the transport starts shutting down after the request was handed over": receiveSync's entry fence answers ShuttingDown
+    HttpClient* hc = cx.client;
+    g_spy->onSendHook = [hc] {
+      std::lock_guard<std::mutex> lk(hc->_transport->_impl->syncMutex);
+      hc->_transport->_impl->shuttingDown = true;
+    };
+    break;
+  }
   default: break;
   }
   cx.attemptStartV = virtNowNs();
@@ -969,7 +1105,7 @@ static bool parseFault(const std::string& tok, Fault& f)
   if (!sem.empty() && sem[0] == 'I') { f.idle = true; p = 1; }
   if (p >= sem.size()) return false;
   f.cls = sem[p];
-  if (std::string("LRBMETCDFPVK").find(f.cls) == std::string::npos) return false;
+  if (std::string("LRBMETCDFPVKS").find(f.cls) == std::string::npos) return false;
   if (f.cls == 'K')
   {
     auto fs = splitc(sem.substr(p), ':');
@@ -1029,9 +1165,13 @@ static std::string doRequest(const std::string& method, long long budget, int ur
   std::string body(bodyLen, 'b');
   std::map<std::string, std::string> headers{{"X-Req-Id", std::to_string(seq)}};
   long long v0 = virtNowNs(), r0 = realMonoNs();
-  g_opDeadlineReal = r0 + 60LL * 1000000000LL;
+  g_opDeadlineReal = r0 + 45LL * 1000000000LL;
   beginAttempt(cx, 0);
   std::string res, rbody = "-";
+  t_isRequester = true;
+  t_maxWaitMs = 0;
+  t_waitTimeouts = 0;
+  t_lastDeadline = -1;
   t_ctx = &cx;
   try
   {
@@ -1049,6 +1189,7 @@ static std::string doRequest(const std::string& method, long long budget, int ur
   catch (const std::exception&) { res = "err:other"; }
   catch (...) { res = "err:nonstd"; }
   t_ctx = nullptr;
+  t_isRequester = false;
   int attempts = cx.attempt + 1;
   cx.attemptVms.push_back((virtNowNs() - cx.attemptStartV) / 1000000LL);
   beginAttempt(cx, -1);
@@ -1088,7 +1229,7 @@ static std::string doRequest(const std::string& method, long long budget, int ur
     for (auto v : cx.attemptVms) a += (a.empty() ? "" : ",") + std::to_string(v);
     mo << " avms=" << (a.empty() ? "-" : a);
   }
-  mo << " vms=" << (v1 - v0) / 1000000LL << " rms=" << (r1 - r0) / 1000000LL << " exhausted=" << (cx.exhausted ? 1 : 0)
+  mo << " maxwait=" << t_maxWaitMs << " tow=" << t_waitTimeouts << " vms=" << (v1 - v0) / 1000000LL << " rms=" << (r1 - r0) / 1000000LL << " exhausted=" << (cx.exhausted ? 1 : 0)
      << " body=" << rbody << " quiesce=" << (g_quiesceFailed.load() ? "FAILED" : "ok");
   return o.str() + "\x01" + mo.str();
 }
@@ -1348,7 +1489,7 @@ int main()
         o << "clockwait=" << n_clockwait.load() << " sleeps_skipped=" << n_nanosleep_skipped.load()
           << " connects=" << n_connect_seen.load() << " refused=" << n_connect_refused.load()
           << " blackholed=" << n_connect_blackholed.load() << " sends=" << n_send_seen.load() << " warps=" << g_warps.load()
-          << " blackhole=" << (g_blackholePort.load() != 0 ? 1 : 0) << " max_in_exchange=" << g_srv.maxInExchange.load();
+          << " stalls=" << n_stalls.load() << " blackhole=" << (g_blackholePort.load() != 0 ? 1 : 0) << " max_in_exchange=" << g_srv.maxInExchange.load();
         return o.str();
       }
       return "bad-op";
